@@ -20,7 +20,7 @@ RULE = (
     "(id = Integer 100...899, code = Choice aa,bb) that is either all good or has exactly one bad row at every "
     "position 1..r (also inside the header; kinds: id not a number, id outside the range, code not a choice, "
     "a character outside the allowed range, an id that repeats the id of the row before it - rejected by the IsUnique "
-    "check only if that row is a data row -, delimited only: a row with too few items) x header style {rows that look like data, column titles that the "
+    "check only if that row is a data row -, delimited only: a row with too few items, a row without any item - an empty line) x header style {rows that look like data, column titles that the "
     "fields would reject} x validation limit in {None, 0..r+1, 2^31, 2^64} x observers {list(cutplace.rows(on_error='yield')), "
     "cutplace.validate, both also with the CID named by the path of a CID file that is rewritten in place whenever "
     "the header count changes, applications.main with --until N (None: option omitted and also '--until -1')}; a "
@@ -53,7 +53,7 @@ EXHAUSTIVE_SCOPE = (
 )
 
 FORMATS = ("delimited", "fixed", "ods", "excel")
-KINDS = {"delimited": ("int", "range", "choice", "count", "char", "dup"),
+KINDS = {"delimited": ("int", "range", "choice", "count", "char", "dup", "none"),
          "fixed": ("int", "range", "choice", "char", "dup"), "fixed-cr": ("int", "choice", "dup"),
          "ods": ("int", "choice", "char", "dup"),
          "excel": ("int", "choice", "dup")}
@@ -100,6 +100,8 @@ def bad_row(number, kind):
         row = good_row(number - 1)  # the id of the row before it (interplay of header / limit with a row check)
     elif kind == "count":
         row = row[:1]
+    elif kind == "none":
+        row = []  # an empty line: a row without any item
     else:
         raise ValueError(kind)
     return row
